@@ -262,15 +262,18 @@ func (l *lexer) acceptWS() {
 		l.backup()
 
 		if strings.HasPrefix(l.input[l.pos:], str_comment_start) {
+			// the closing */ is looked for after the opening /* (so that /*/ is still
+			// open) and only the end of the input, not a NUL character, ends the search
+			l.pos += len(str_comment_start)
 			for {
-				var r = l.next()
 				if strings.HasPrefix(l.input[l.pos:], str_comment_end) {
 					l.pos += len(str_comment_end)
 					break
 				}
-				if r == eof {
+				if l.isEof() {
 					break
 				}
+				l.next()
 			}
 		} else if strings.HasPrefix(l.input[l.pos:], str_comment_inline_start) {
 			for {
